@@ -113,7 +113,10 @@ class Lifespan:
         elif message["type"] == "lifespan.shutdown.complete":
             self.shutdown.set()
         elif message["type"] == "lifespan.startup.failed":
-            self.startup.set()
+            # Startup is only marked as finished once the app has
+            # exited (see handle_lifespan), as the failure is raised
+            # from the app's task which must be done for it to be
+            # noticed.
             raise LifespanFailureError("startup", message.get("message", ""))
         elif message["type"] == "lifespan.shutdown.failed":
             self.shutdown.set()
